@@ -19,6 +19,7 @@ logger = logging.getLogger("diameter.avp")
 
 
 __all__ = [
+    "AccessNetworkChargingIdentifierGx",
     "AccessNetworkInfoChange",
     "AccessTransferInformation",
     "AccumulatedCost",
@@ -1664,6 +1665,27 @@ class SdpMediaComponent:
         AvpGenDef("tgpp_charging_id", AVP_TGPP_3GPP_CHARGING_ID, VENDOR_TGPP),
         AvpGenDef("access_network_charging_identifier_value", AVP_TGPP_ACCESS_NETWORK_CHARGING_IDENTIFIER_VALUE, VENDOR_TGPP),
         AvpGenDef("sdp_type", AVP_TGPP_SDP_TYPE, VENDOR_TGPP),
+    )
+
+
+@dataclasses.dataclass
+class AccessNetworkChargingIdentifierGx:
+    """A data container that represents the "Access-Network-Charging-Identifier-Gx" (1022) grouped AVP.
+
+    3GPP TS 29.212 version 17.2.0
+    """
+    access_network_charging_identifier_value: bytes = None
+    charging_rule_base_name: list[str] = dataclasses.field(default_factory=list)
+    charging_rule_name: list[bytes] = dataclasses.field(default_factory=list)
+    ip_can_session_charging_scope: int = None
+    additional_avps: list[Avp] = dataclasses.field(default_factory=list)
+
+    # noinspection PyDataclass
+    avp_def: dataclasses.InitVar[AvpGenType] = (
+        AvpGenDef("access_network_charging_identifier_value", AVP_TGPP_ACCESS_NETWORK_CHARGING_IDENTIFIER_VALUE, VENDOR_TGPP, is_required=True),
+        AvpGenDef("charging_rule_base_name", AVP_TGPP_CHARGING_RULE_BASE_NAME, VENDOR_TGPP),
+        AvpGenDef("charging_rule_name", AVP_TGPP_CHARGING_RULE_NAME, VENDOR_TGPP),
+        AvpGenDef("ip_can_session_charging_scope", AVP_TGPP_IP_CAN_SESSION_CHARGING_SCOPE, VENDOR_TGPP),
     )
 
 
